@@ -114,11 +114,11 @@ Proof.
   all: try (destruct H as [H|[H1 H2]]; try discriminate; try congruence).
 Qed.
 
-Lemma funnel_other : forall st x, fst (surfaced st x) = OOther <-> x = XMemoryOrSystem.
+Lemma funnel_other : forall st x, fst (surfaced st x) = OOther <-> x = XSystemExit.
 Proof. intros st x. destruct st; destruct x; cbn; split; intros H; try discriminate; try reflexivity. Qed.
 
 Lemma funnel_internal : forall st x,
-  fst (surfaced st x) = OInternal <-> x <> XInvalid /\ x <> XMemoryOrSystem /\ (handled_in_parser x = true -> st = SVisit).
+  fst (surfaced st x) = OInternal <-> x <> XInvalid /\ x <> XSystemExit /\ (handled_in_parser x = true -> st = SVisit).
 Proof.
   intros st x. destruct st; destruct x; cbn; split; intros H; try discriminate; try reflexivity.
   all: try (repeat split; try discriminate; try reflexivity; intros; discriminate).
@@ -132,7 +132,7 @@ Proof. intros st x. destruct st; destruct x; cbn; intros H; try reflexivity; exf
 Lemma outside_parser : forall x,
   surfaced_outside_parser x =
   if is_error x then (outcome_of x, true)
-  else match x with XUnicodeDecode => (OInvalid, true) | XMemoryOrSystem => (OOther, false) | _ => (OInternal, true) end.
+  else match x with XUnicodeDecode => (OInvalid, true) | XSystemExit => (OOther, false) | _ => (OInternal, true) end.
 Proof. intros x. destruct x; reflexivity. Qed.
 
 (* ---------------------------------------------------------------- expressions *)
@@ -161,5 +161,9 @@ Lemma remaining_leaks :
   surfaced SVisit XRecursion = (OInternal, true)
   /\ surfaced_outside_parser XOSError = (OInternal, true)
   /\ surfaced_outside_parser XRecursion = (OInternal, true)
-  /\ surfaced_outside_funnel XRecursion = (OOther, false).
+  /\ surfaced_outside_funnel XRecursion = (OOther, false)
+  /\ surfaced SVisit XValueError = (OInternal, true)
+  /\ surfaced_outside_parser XValueError = (OInternal, true)
+  /\ surfaced SVisit XOverflow = (OInternal, true)
+  /\ surfaced SVisit XMemoryOrSystem = (OInternal, true).
 Proof. repeat split. Qed.
